@@ -12,7 +12,9 @@ Emitted (as a value of Model.SaveSched.cfg):
     whether the re-arm statement (Timer(..., schedule_save).start() / await
     asyncio.sleep inside `while True`) follows the try;
   * stop(): cancel then final save; for asyncio whether the loop turns the
-    cancellation into a normal end of the task.
+    cancellation into a normal end of the task;
+  * Gateway.alert (mysensors/__init__.py): whether it stores True into need_save on
+    every path.
 
 Fail closed: any statement that is not one of the recognised forms raises
 TranslateError naming the construct; nothing is guessed.
@@ -419,6 +421,27 @@ def _async_schedule(module, tree):
     return rows, resumes, rearm, cancels, cancel_ok, saves
 
 
+def _alert(tree):
+    """Gateway.alert: does it store True into need_save on every path (when persistence is on)?"""
+    cls = _find_class(tree, "Gateway")
+    fn = _find_func(cls, "alert", (ast.FunctionDef,))
+    for st in _strip_doc(fn.body):
+        if isinstance(st, (ast.Return, ast.Raise)):
+            return False
+        if (isinstance(st, ast.If) and _src(st.test) == "self.tasks.persistence" and not st.orelse
+                and len(st.body) == 1 and _src(st.body[0]) == "self.tasks.persistence.need_save = True"):
+            return True
+        if _src(st) == "self.tasks.persistence.need_save = True":
+            return True
+        # anything else (the callback block) must not leave the function or touch the flag
+        for n in ast.walk(st):
+            if isinstance(n, (ast.Return, ast.Raise)):
+                return False
+            if isinstance(n, ast.Attribute) and n.attr == "need_save":
+                return False
+    return False
+
+
 # ------------------------------------------------------------------ entry
 
 def facts():
@@ -430,6 +453,11 @@ def facts():
     for mod, path in ((task_mod, task_py), (pers_mod, pers_py)):
         if Path(mod.__file__).resolve() != path.resolve():
             raise TranslateError(f"imported {mod.__file__} is not {path}")
+    init_py = core.REPO / "mysensors" / "__init__.py"
+    pkg = importlib.import_module("mysensors")
+    if Path(pkg.__file__).resolve() != init_py.resolve():
+        raise TranslateError(f"imported {pkg.__file__} is not {init_py}")
+    i_tree = ast.parse(init_py.read_text())
     t_tree = ast.parse(task_py.read_text())
     p_tree = ast.parse(pers_py.read_text())
     ops, protect_from, h_rows, h_sets, h_reraises, fin = _save_sensors(pers_mod, p_tree)
@@ -440,6 +468,7 @@ def facts():
                          _sync_schedule(task_mod, t_tree))),
         "async": dict(zip(("handler", "resumes", "rearm", "stop_cancels", "cancel_ok", "stop_saves"),
                           _async_schedule(task_mod, t_tree))),
+        "alert_sets_flag": _alert(i_tree),
         "mro": {"OSError<=Exception": issubclass(OSError, Exception),
                 "RuntimeError<=Exception": issubclass(RuntimeError, Exception),
                 "CancelledError<=Exception": issubclass(asyncio.CancelledError, Exception)},
@@ -473,7 +502,10 @@ def generate():
         "(* AsyncTasks._schedule_factory.save_on_schedule / AsyncTasks.stop *)",
         f"Definition gen_async : sched_cfg := {sched(f['async'])}.",
         "",
-        "Definition gen_cfg : cfg := mkCfg gen_save gen_sync gen_async.",
+        "(* Gateway.alert stores True into need_save on every path *)",
+        f"Definition gen_alert : bool := {_b(f['alert_sets_flag'])}.",
+        "",
+        "Definition gen_cfg : cfg := mkCfg gen_save gen_sync gen_async gen_alert.",
         "",
         "(* live MROs *)",
         f"Definition sub_OSError_Exception : bool := {_b(f['mro']['OSError<=Exception'])}.",
